@@ -241,11 +241,11 @@ def gen_items(r, typ=INT, n=None, sorted_=False):
     else:
         xs = [r.randint(-3, 12) for _ in range(n)]
     if sorted_:
-        xs.sort()
+        xs = sorted(set(xs)) if r.random() < 0.5 else sorted(xs)
     return [enc(x) for x in xs]
 
 
-def gen_trace(r, typ=INT, nkeys=None, reuse=True, sorted_=False, max_items=None):
+def gen_trace(r, typ=INT, nkeys=None, reuse=True, sorted_=False, max_items=None, bursts=False):
     """A well-formed keyed trace: several lifetimes, sparse/descending slot indices, slots reused by later
     lifetimes, arbitrary interleaving of the items of simultaneously live keys."""
     nkeys = r.choice([1, 1, 2, 3, 4]) if nkeys is None else nkeys
@@ -267,7 +267,7 @@ def gen_trace(r, typ=INT, nkeys=None, reuse=True, sorted_=False, max_items=None)
     trace = []
     while queues:
         q = r.choice(queues)
-        burst = r.choice([1, 1, 2, 5])
+        burst = r.choice([2, 3, 2, 4]) if bursts else r.choice([1, 1, 2, 5])
         for _ in range(burst):
             if q:
                 trace.append(q.pop(0))
